@@ -168,6 +168,14 @@ theorem nchangeState_ext (hC : NoCmds sc) (scope : Scope) (x : Ctx) (dest : SPat
     intro _ s1 _ s' h
     exact (enterAll_ext hC x r.enters _ s' h).congr rfl rfl
 
+theorem nfinalStage_ext (hC : NoCmds sc) (scope : Scope) (x : Ctx) (dest : Option SPath) (conf0 : Forest) (s : NSt) :
+    PresE (nfinalStage sub sc cfg scope x dest conf0 s) s := by
+  rcases nfinalStage_cases sub sc cfg scope x dest conf0 s with h1 | ⟨cbs, h1⟩ | ⟨e, _, h1⟩ | h1 <;> rw [h1]
+  · exact PresE.ok (Ext.refl _)
+  · exact ncallbacks_ext hC _ x cbs s
+  · exact PresE.err (Ext.refl _)
+  · exact PresE.oof
+
 theorem nexecute_ext (hC : NoCmds sc) (scope : Scope) (x : Ctx) (tr : TRef) (t : NTrans) (s : NSt) :
     PresE (nexecute sub sc cfg scope x tr t s) s := by
   unfold nexecute
@@ -187,6 +195,8 @@ theorem nexecute_ext (hC : NoCmds sc) (scope : Scope) (x : Ctx) (tr : TRef) (t :
     · split
       · exact nchangeState_ext hC scope x _ s4
       · exact PresE.ok (Ext.refl _)
+    intro _ s5 _
+    refine PresE.bind (nfinalStage_ext hC scope x _ _ s5) ?_
     intro _ s5 _
     refine PresE.bind (ncallbacks_ext hC _ x _ s5) ?_
     intro _ s6 _
